@@ -338,6 +338,22 @@ pub fn emit_case_known(out: &mut dyn Write, group: &str, c: &Case, verbose: bool
             }
         }
     }
+    // sequential mode, short-circuit terminal, instrumented iterator source, one pass over the
+    // source: std's lazy find consumes the source exactly up to the element that yields the match
+    if fp_all_sequential(c) && c.term.is_find_family() && matches!(c.src_kind, 'k' | 'u' | 'e') && !c.has_eager() && c.panic_at.is_none() && !panicked {
+        let matched = !matches!(ex.out, Outcome::Opt(None) | Outcome::OptIdx(None)) && !matches!((&c.term, &ex.out), (TermD::Any(_), Outcome::Bool(false)) | (TermD::All(_), Outcome::Bool(true)));
+        let needed = if c.ops.is_empty() {
+            // no chain closure: the predicate (or `first`) sees one source element per call
+            if matched { ex.log.len().max(1) } else { c.input.len() }
+        } else {
+            ex.log.iter().filter(|e| e.0 == 0).count()
+        };
+        let needed = if matched { needed } else { c.input.len() };
+        let pulled = r.rec.pulls.len();
+        if c.src_kind != 'e' && pulled != needed || c.src_kind == 'e' && pulled > needed {
+            fails.push(format!("C10:sequential-mode-consumed-{}-source-elements-where-the-lazy-std-evaluation-consumes-{}", pulled, needed));
+        }
+    }
     if r.rec.reentrancy > 0 {
         fails.push(format!("C05:source-advanced-concurrently({} times)", r.rec.reentrancy));
     }
@@ -1321,6 +1337,13 @@ pub fn run(out: &mut dyn Write, prop: &str, seed: u64, thorough: bool) -> std::i
                 SetD::CsEnum(ChunkSize::Auto),
                 SetD::CsEnum(ChunkSize::Min(nz(5))),
                 SetD::CsEnum(ChunkSize::Exact(nz(2))),
+                // values around and beyond the largest constant of the settings code (2^20)
+                SetD::CsUsize(1 << 20),
+                SetD::CsUsize((1 << 20) + 1),
+                SetD::CsEnum(ChunkSize::Min(nz(1 << 40))),
+                SetD::CsEnum(ChunkSize::Exact(nz((1 << 32) + 5))),
+                SetD::NtUsize((1 << 20) + 1),
+                SetD::NtEnum(NumThreads::Max(nz(1 << 40))),
             ];
             let input: Vec<u64> = vec![5, 11, 2, 8, 13];
             for ch in CHAINS.iter() {
@@ -1341,7 +1364,9 @@ pub fn run(out: &mut dyn Write, prop: &str, seed: u64, thorough: bool) -> std::i
                         let pos = rng.below(ops.len() as u64 + 1) as usize;
                         sets[pos].push(*rng.pick(&setters));
                     }
-                    let src_kind = *rng.pick(&['v', 'k', 'u']);
+                    // huge chunk sizes allocate per-worker buffers on iterator sources (known finding C15)
+                    let huge = sets.iter().flatten().any(|s| matches!(s, SetD::CsUsize(c) if *c > 100_000) || matches!(s, SetD::CsEnum(ChunkSize::Exact(c)) | SetD::CsEnum(ChunkSize::Min(c)) if c.get() > 100_000));
+                    let src_kind = if huge { 'v' } else { *rng.pick(&['v', 'k', 'u']) };
                     let c = Case { src_kind, input: input.clone(), ops: ops.clone(), sets, term: TermD::Count, mode: Mode::Free(0), panic_at: None };
                     emit_case(out, "multi-setter", &c, false)?;
                     total_c.set(total_c.get() + 1);
@@ -1420,15 +1445,18 @@ pub fn run(out: &mut dyn Write, prop: &str, seed: u64, thorough: bool) -> std::i
         }
         "C16" => {
             // every (type, transformation) site occurs in a chain of depth <= 3; 50 elements
-            let input = gen_input(&mut rng, 50, true);
+            let input50 = gen_input(&mut rng, 50, true);
+            let input4 = gen_input(&mut rng, 4, true);
             for ch in CHAINS.iter() {
-                for rep in 0..n(2, 6) {
+                for rep in 0..n(3, 8) {
+                    // a materialised stage shorter than the number of threads on every third case
+                    let input = if rep % 3 == 2 { input4.clone() } else { input50.clone() };
                     let ops: Vec<OpD> = ch.0.chars().map(|k| gen_op(&mut rng, k)).collect();
                     let mut sets = vec![vec![]; ops.len() + 1];
                     if rep > 0 {
                         for _ in 0..rng.range(1, 3) {
                             let pos = rng.below(ops.len() as u64 + 1) as usize;
-                            sets[pos].push(*rng.pick(&[SetD::NtUsize(1), SetD::NtUsize(3), SetD::CsUsize(4), SetD::NtUsize(0), SetD::CsEnum(ChunkSize::Min(nz(2)))]));
+                            sets[pos].push(*rng.pick(&[SetD::NtUsize(1), SetD::NtUsize(3), SetD::NtUsize(6), SetD::CsUsize(4), SetD::NtUsize(0), SetD::CsEnum(ChunkSize::Min(nz(2)))]));
                         }
                     }
                     let src_kind = *rng.pick(&['v', 'k', 'u']);
@@ -1493,8 +1521,18 @@ pub fn run(out: &mut dyn Write, prop: &str, seed: u64, thorough: bool) -> std::i
                 let p = gen_pred(&mut rng);
                 t.extend([TermD::Find(p), TermD::Find(p), TermD::Any(p)]);
             }
+            // targets with existing contents and no / partial / ample spare capacity
+            let mut into_terms = vec![];
+            for k in ['v', 's', 'f'] {
+                for pre_len in [0usize, 1, 3, 40] {
+                    for cap in [0usize, 5, 200] {
+                        let pre: Vec<u64> = (0..pre_len).map(|_| rng.below(P)).collect();
+                        into_terms.push(TermD::CollectInto(k, pre, cap));
+                    }
+                }
+            }
             for _ in 0..n(4000, 30000) {
-                let term = rng.pick(&t).clone();
+                let term = if rng.chance(1, 4) { rng.pick(&into_terms).clone() } else { rng.pick(&t).clone() };
                 let full_needed = !is_core_terminal(&term);
                 let cands: Vec<&&str> = crate::chains::CANARY_CHAINS.iter().filter(|c| !full_needed || c.len() <= 1).collect();
                 let kinds = **rng.pick(&cands);
